@@ -11,6 +11,8 @@ import (
 
 	"google.golang.org/protobuf/proto"
 
+	"github.com/libp2p/go-libp2p/core/crypto"
+
 	orbitdb "berty.tech/go-orbit-db"
 	"berty.tech/go-orbit-db/stores/operation"
 	"berty.tech/weshnet/v2/internal/verifkit"
@@ -77,6 +79,17 @@ func TestVerifC12(t *testing.T) {
 		mod("identifier=other-group", func(c *protocoltypes.Group) { c.PublicKey = other.PublicKey })
 		mod("secret-truncated", func(c *protocoltypes.Group) { c.Secret = c.Secret[:31] })
 		mod("sig-truncated", func(c *protocoltypes.Group) { c.SecretSig = c.SecretSig[:63] })
+		// the same key / secret / signature in another encoding is another identifier, secret or signature: the statement
+		// says ANY change to them makes joining fail (the identifier names the group's logs byte for byte)
+		if gpk, err := g.GetPubKey(); err == nil {
+			if envl, err := crypto.MarshalPublicKey(gpk); err == nil {
+				mod("identifier=key-in-libp2p-envelope", func(c *protocoltypes.Group) { c.PublicKey = envl })
+			}
+		}
+		mod("identifier+trailing-zero", func(c *protocoltypes.Group) { c.PublicKey = append(append([]byte(nil), c.PublicKey...), 0) })
+		mod("identifier-twice", func(c *protocoltypes.Group) { c.PublicKey = append(append([]byte(nil), c.PublicKey...), c.PublicKey...) })
+		mod("secret+trailing-zero", func(c *protocoltypes.Group) { c.Secret = append(append([]byte(nil), c.Secret...), 0) })
+		mod("sig+trailing-zero", func(c *protocoltypes.Group) { c.SecretSig = append(append([]byte(nil), c.SecretSig...), 0) })
 		mod("add-sign-pub", func(c *protocoltypes.Group) { c.SignPub = other.PublicKey })
 		mod("add-link-key", func(c *protocoltypes.Group) { c.LinkKey = other.Secret })
 		// invitations forged by someone who only holds the public replication descriptor of the group (identifier, sign_pub,
@@ -270,6 +283,26 @@ func TestVerifC12(t *testing.T) {
 		if err != nil {
 			rep.Inconclusivef("open %s: %v", s.name, err)
 			return
+		}
+		// the stores a replication node really opens from the descriptor - with no store options, and with one options
+		// value reused for both logs (as a service does) - carry the addresses of the member's own stores
+		for oi, opts := range []*orbitdb.CreateDBOptions{nil, func() *orbitdb.CreateDBOptions { f := false; return &orbitdb.CreateDBOptions{Replicate: &f} }()} {
+			rnode := w.newReplica("REPL", nil)
+			mds, mgs, err := rnode.odb.OpenGroupReplication(ctx, desc, opts)
+			rep.Case(fmt.Sprintf("opened-address/%s/%d/options=%d", s.name, si, oi))
+			rep.Eval(1)
+			if err != nil {
+				rep.Violate("C12/descriptor-cannot-be-opened", err.Error(), s.name)
+				continue
+			}
+			if mds.Address().String() != gc.MetadataStore().Address().String() || mgs.Address().String() != gc.MessageStore().Address().String() {
+				rep.Violate("C12/descriptor-other-address/opened-stores", fmt.Sprintf("a replication node opening the descriptor (store options %s) gets logs at other addresses than the member's (metadata equal=%v, messages equal=%v)",
+					[]string{"nil", "given"}[oi], mds.Address().String() == gc.MetadataStore().Address().String(), mgs.Address().String() == gc.MessageStore().Address().String()), s.name)
+			} else {
+				rep.Count("opened_addresses_equal", 1)
+			}
+			_ = mds.Close()
+			_ = mgs.Close()
 		}
 		var metaEnvs, msgEnvs [][]byte
 		collect := func(op operation.Operation, err error, into *[][]byte) {
